@@ -1,6 +1,6 @@
-CONSTANTS N = 3  D = 1  MaxExtra = 3
+CONSTANTS N = 3  D = 1  MaxExtra = 2
   ShapeIds = {"bent", "onesided"}
-  Vals = {3}  Sparse = {FALSE, TRUE}
+  Vals = {0, 3}  Sparse = {FALSE, TRUE}
 INIT Init
 NEXT Next
 CONSTRAINT Emit
